@@ -116,7 +116,8 @@ class TxHarness(Harness):
             nohsk = nohsk & (h.kind[i] != KIND_HSK)
             noaddr = noaddr & ~((h.kind[i] == KIND_SETUP) & (d[5:7] == 0) & (d[8:16] == 5))
         m.d.comb += [self.a["legal"].eq(h.legal), self.a["no_hsk"].eq(nohsk), self.a["no_set_address"].eq(noaddr),
-                     self.a["bounded_stall"].eq(~(u.tx_valid & (h.t >= h.ack_t - 1)))]
+                     # PHY stalls (tx_ready low) never stretch a transmission into the next transaction
+                     self.a["bounded_stall"].eq(~(u.tx_valid & (h.t >= h.slot_len - 2)))]
 
         # ---- packet decoder on accepted bytes
         from luna.gateware.usb.usb2.packet import USBDataPacketCRC
@@ -244,14 +245,29 @@ def queries(tier):
     qs.append(Query("covers_3slots", f3, 32 * 3 + 2, asserts=[], hints=hints, timeout=900, split=False,
                     covers=["ep1_data", "ep3_data", "ep2_ack", "ep0_data", "stalled_byte"], desc="witnesses"))
     # one solver process per cube of per-slot (kind, flag) choices; endpoints 0..3, addresses, data, OUT length symbolic
+    # The CRC16 clause is separated from the framing clauses: with tx_ready free the DUT's CRC register advances under a
+    # symbolic schedule and the comparison with the monitor's CRC dominates everything else (500-900 s per cube against
+    # 10-60 s for all other clauses together).  data_crc is therefore decided (a) in every cube with tx_ready = 1 and
+    # (b) with tx_ready free for a single IN transaction to each endpoint.
+    f1 = lambda: TxHarness(1, free_ready=True)
     f2 = lambda: TxHarness(2, free_ready=True)
+    f2r = lambda: TxHarness(2, free_ready=False)
+    REST = ["pid", "handshake_len", "continuous", "solicited", "early", "during_rx", "one_per_transaction"]
+    for name, layer in slot_cubes(1, "Ii"):
+        qs.append(Query(f"bmc_1slot_{name}_crc", f1, 34, layer=layer, asserts=["data_crc"], covers=[], timeout=1800,
+                        split=False, desc=f"1 IN transaction ({name}) to any endpoint, tx_ready free: CRC16 of the data packet"))
     for name, layer in slot_cubes(2, "SIO" if tier == "quick" else "SsIiOoN"):
-        qs.append(Query(f"bmc_2slots_{name}", f2, 32 * 2 + 2, layer=layer, covers=[], timeout=900, split=False,
+        qs.append(Query(f"bmc_2slots_{name}", f2, 32 * 2 + 2, layer=layer, asserts=REST, covers=[], timeout=900, split=False,
                         desc=f"2 transactions {name} against control + bulk IN/OUT + status endpoints, tx_ready free"))
+        if "I" in name.upper() or "S" in name.upper():
+            qs.append(Query(f"bmc_2slots_{name}_crc", f2r, 32 * 2 + 2, layer=layer, asserts=["data_crc"], covers=[],
+                            timeout=900, split=False, desc=f"2 transactions {name}, tx_ready = 1: CRC16 of every data packet"))
     cubes3 = [c for c in slot_cubes(3, "SIO") if tier != "quick" or c[0] in ("SII", "SIO", "SOI", "IOI")]
     for name, layer in cubes3:
-        qs.append(Query(f"bmc_3slots_{name}", f3, 32 * 3 + 2, layer=layer, covers=[], timeout=1800, split=False,
+        qs.append(Query(f"bmc_3slots_{name}", f3, 32 * 3 + 2, layer=layer, asserts=REST, covers=[], timeout=1800, split=False,
                         desc=f"3 transactions {name} against control + bulk IN/OUT + status endpoints, tx_ready free"))
+        qs.append(Query(f"bmc_3slots_{name}_crc", f3r, 32 * 3 + 2, layer=layer, asserts=["data_crc"], covers=[],
+                        timeout=1800, split=False, desc=f"3 transactions {name}, tx_ready = 1: CRC16 of every data packet"))
     if tier == "thorough":
         for name, layer in slot_cubes(4, "SIO", first="S"):
             if name[1:] in ("III", "IOI", "OII", "SII", "IIO", "ISI"):
